@@ -102,6 +102,14 @@ CHECKS["C11"] = (
     "DESIGN.md section 5 C11",
 )
 
+CHECKS["C06"] = (
+    "exploration",
+    "runtime monitoring with counting producers: single-threaded consumption histories over 9 lazy source kinds are compared with a list model (at-most-once, agreement, on-demand bound, exception propagation); multi-threaded scenarios (blocking, sleeping, throwing, re-entrant producers; 2-4 walkers) run each in its own child interpreter against the native module rebuilt from /repo/rust, with faulthandler armed and an outer watchdog that must fire 3/3 to count as a liveness violation",
+    "Held on thousands of single-threaded histories and ~80 (thorough ~1800) multi-threaded scenario instances with real preemption (1 microsecond switch interval, GIL-releasing producers). Exploration: interleavings are those the OS scheduler produced, not enumerated - the native mutex is invisible to Python-level yield injection.",
+    "Trusted: the list model of each source; both retry and re-raise are accepted after a producer exception; the 3/3 watchdog rule for interpreter wedges; lock-order inversions between two different lazy seqs are not driven.",
+    "DESIGN.md section 5 C06",
+)
+
 NOT_BUILT ="check not built yet in this session (design in DESIGN.md section 5); not claimed until its monitor exists and is quiet on the unchanged tree"
 
 
